@@ -299,6 +299,13 @@ def search(prop, tier, base_seed, jobs=None, runs=None, wall=None, verbose=True)
     watchdog = cfg.get("watchdog", 300)
     jobs = jobs or int(os.environ.get("VERIF_JOBS", "0")) or min(16, os.cpu_count() or 1)
     known = load_known()
+    # stale replay files of earlier runs of this property would be misleading
+    import glob
+    for old_file in glob.glob(os.path.join(REPLAY_DIR, f"{prop}-*.json")):
+        try:
+            os.remove(old_file)
+        except OSError:
+            pass
 
     # chunks are small enough for load balance, large enough to amortise bench construction
     chunk = cfg.get("chunk") or max(1, min(32, n_runs // (jobs * 4) or 1))
